@@ -372,6 +372,15 @@ func runCheck(repo, prop, tier string, update bool) int {
 		for _, r := range results {
 			delete(base.Universal, r.Key)
 			if spec := w.specs.Funcs[r.Key]; spec != nil {
+				for tname, cls := range spec.AtStores {
+					for k, cl := range cls {
+						lbl := fmt.Sprint(k + 1)
+						if cl.Label != "" {
+							lbl = cl.Label
+						}
+						base.Universal[r.Key] = append(base.Universal[r.Key], fmt.Sprintf("%s#atstore.%s@all.%s", r.Key, tname, lbl))
+					}
+				}
 				for site, cls := range spec.AtCalls {
 					if !strings.HasSuffix(site, "@*") {
 						continue
